@@ -61,6 +61,10 @@ func (i *Index) Get(slot uint64) (int64, error) {
 	if slot < i.start || slot > i.end {
 		return 0, NewErrSlotOutOfRange(i.start, i.end, slot)
 	}
+	if slot-i.start >= uint64(len(i.values)) {
+		// an index file whose capacity does not cover start..end
+		return 0, NewErrSlotOutOfRange(i.start, i.end, slot)
+	}
 	return i.values[slot-i.start], nil
 }
 
